@@ -274,7 +274,8 @@ def finalise(report, level, level_checker_cmd):
         with open(path, 'w') as f:
             json.dump(dict(property=pid, kind='input', script=v['script'], scenario=v['scenario'], detail=v['detail'],
                            failed_obligations=[o['obligation'] for o in obls][:20]), f, indent=1, default=str)
-        lines.append('VIOLATION property=%s replay=%s' % (pid, path))
+        # the failing input comes from a bounded driver; when the deductive part failed too, the first failed obligation is named
+        lines.append('VIOLATION property=%s replay=%s%s' % (pid, path, (' obligation=%s' % obls[0]['obligation']) if obls else ''))
         out_violations.append(v)
     if not inputs:
         for v in obls[:5]:
